@@ -14,7 +14,7 @@ use super::load_error::{LoadError, LoadErrorImpl, load_error};
 use super::metadata::{MetadataField, ModelMetadata};
 use super::{Model, ModelOptions, OptimizeMode};
 use crate::constant_storage::{ArcSlice, ArcTensorView, ConstantStorage};
-use crate::graph::{CaptureEnv, ConstantNodeData, Dimension, Graph, NodeId};
+use crate::graph::{CaptureEnv, ConstantNodeData, Dimension, Graph, Node, NodeId};
 use crate::op_registry::rten_registry::{OpLoadContext, convert_dtype};
 use crate::op_registry::{OpRegistry, ReadOpError};
 use crate::optimize::GraphOptimizer;
@@ -129,22 +129,32 @@ fn load_graph(
     // Map of model node index to graph node ID
     let mut node_id_from_index: HashMap<usize, NodeId> = HashMap::with_capacity(node_count);
 
-    let input_ids: Vec<NodeId> = serialized_graph
-        .inputs()
-        .map(|ids| ids.iter().map(NodeId::from_u32).collect())
-        .unwrap_or_default();
+    // Node IDs in the file are `u32`s, but `NodeId` only supports values up
+    // to `i32::MAX`.
+    let convert_ids = |ids: Option<flatbuffers::Vector<u32>>| -> Result<Vec<NodeId>, LoadError> {
+        ids.map(|ids| {
+            ids.iter()
+                .map(|id| {
+                    if id <= i32::MAX as u32 {
+                        Ok(NodeId::from_u32(id))
+                    } else {
+                        Err(load_error!(GraphError, None, "invalid node ID {}", id))
+                    }
+                })
+                .collect()
+        })
+        .unwrap_or(Ok(Vec::new()))
+    };
 
-    let output_ids: Vec<NodeId> = serialized_graph
-        .outputs()
-        .map(|ids| ids.iter().map(NodeId::from_u32).collect())
-        .unwrap_or_default();
+    let input_ids = convert_ids(serialized_graph.inputs())?;
+    let output_ids = convert_ids(serialized_graph.outputs())?;
 
     let mut graph = Graph::with_capacity(node_count);
     graph.set_input_ids(&input_ids);
     graph.set_output_ids(&output_ids);
 
-    if let Some(captures) = serialized_graph.captures() {
-        let captures: Vec<NodeId> = captures.iter().map(NodeId::from_u32).collect();
+    if serialized_graph.captures().is_some() {
+        let captures = convert_ids(serialized_graph.captures())?;
         graph.set_captures(&captures);
     }
 
@@ -178,6 +188,31 @@ fn load_graph(
                 return Err(load_error!(GraphError, node.name(), "unknown node type"));
             };
             node_id_from_index.insert(node_index, graph_node);
+        }
+    }
+
+    // Graph inputs, outputs and captures must refer to values. Outputs can
+    // also be constants.
+    for (ids, allow_constant, kind) in [
+        (graph.input_ids(), false, "input"),
+        (graph.output_ids(), true, "output"),
+        (graph.captures(), false, "capture"),
+    ] {
+        for id in ids {
+            let valid = match graph.get_node(*id) {
+                Some(Node::Value(_)) => true,
+                Some(Node::Constant(_)) => allow_constant,
+                _ => false,
+            };
+            if !valid {
+                return Err(load_error!(
+                    GraphError,
+                    None,
+                    "graph {} {} is not a value node",
+                    kind,
+                    id
+                ));
+            }
         }
     }
 
@@ -279,6 +314,26 @@ fn add_graph_operator(
         ));
     }
 
+    // Operator inputs and outputs are node indices, which can refer to any
+    // kind of node. Check they refer to nodes which can provide or hold a value.
+    for input_id in inputs.iter().flatten() {
+        if !matches!(
+            graph.get_node(*input_id),
+            Some(Node::Value(_) | Node::Constant(_))
+        ) {
+            return Err(load_error!(
+                GraphError,
+                name,
+                "operator input is not a value or constant"
+            ));
+        }
+    }
+    for output_id in outputs.iter().flatten() {
+        if !matches!(graph.get_node(*output_id), Some(Node::Value(_))) {
+            return Err(load_error!(GraphError, name, "operator output is not a value"));
+        }
+    }
+
     let graph_node = graph.add_op(name, op, &inputs, &outputs);
     Ok(graph_node)
 }
@@ -317,6 +372,12 @@ fn add_graph_constant(
     tensor_data_offset: Option<u64>,
 ) -> Result<NodeId, LoadError> {
     let shape: Vec<usize> = constant.shape().iter().map(|x| x.as_usize()).collect();
+
+    // Reject shapes whose element count (or strides, for shapes with a
+    // zero-sized dimension) cannot be computed without overflow.
+    if checked_element_count(&shape).is_none() {
+        return Err(load_error!(GraphError, name, "constant shape is too large"));
+    }
 
     if let Some(data_offset) = constant.data_offset() {
         // Constant data is stored outside the model buffer, in the same file.
@@ -364,16 +425,20 @@ fn add_graph_constant(
     } else {
         // Constant data is stored inline in model
         let graph_node = if let Some(float_data) = constant.data_as_float_data() {
-            let const_data = constant_data_from_flatbuffers_vec(storage, float_data.data(), &shape);
+            let const_data =
+                constant_data_from_flatbuffers_vec(storage, float_data.data(), &shape, name)?;
             graph.add_constant(name, const_data)
         } else if let Some(int_data) = constant.data_as_int_32_data() {
-            let const_data = constant_data_from_flatbuffers_vec(storage, int_data.data(), &shape);
+            let const_data =
+                constant_data_from_flatbuffers_vec(storage, int_data.data(), &shape, name)?;
             graph.add_constant(name, const_data)
         } else if let Some(int8_data) = constant.data_as_int_8_data() {
-            let const_data = constant_data_from_flatbuffers_vec(storage, int8_data.data(), &shape);
+            let const_data =
+                constant_data_from_flatbuffers_vec(storage, int8_data.data(), &shape, name)?;
             graph.add_constant(name, const_data)
         } else if let Some(uint8_data) = constant.data_as_uint_8_data() {
-            let const_data = constant_data_from_flatbuffers_vec(storage, uint8_data.data(), &shape);
+            let const_data =
+                constant_data_from_flatbuffers_vec(storage, uint8_data.data(), &shape, name)?;
             graph.add_constant(name, const_data)
         } else {
             return Err(load_error!(
@@ -386,22 +451,49 @@ fn add_graph_constant(
     }
 }
 
+/// Return the number of elements in a tensor with a given shape, or `None` if
+/// the element count, or the strides of a contiguous tensor with this shape,
+/// would overflow.
+fn checked_element_count(shape: &[usize]) -> Option<usize> {
+    // Strides are products of trailing dimension sizes. Treating zero-sized
+    // dimensions as having size one gives an upper bound for all of them.
+    shape
+        .iter()
+        .try_fold(1usize, |len, &size| len.checked_mul(size.max(1)))?;
+    Some(shape.iter().product())
+}
+
 /// Convert a vector from a FlatBuffers file into data for a graph constant node.
 ///
 /// If the data is correctly aligned and the system is little-endian, this will
 /// return a view, otherwise it will copy the data into an owned tensor.
+///
+/// Returns an error if the length of the vector does not match `shape`.
 fn constant_data_from_flatbuffers_vec<'a, T: FromByteArray + flatbuffers::Follow<'a, Inner = T>>(
     storage: &Arc<ConstantStorage>,
     fb_vec: flatbuffers::Vector<'a, T>,
     shape: &[usize],
-) -> ConstantNodeData<T> {
+    name: Option<&str>,
+) -> Result<ConstantNodeData<T>, LoadError> {
+    let data_len = fb_vec.len();
+    let len_mismatch = || {
+        load_error!(
+            GraphError,
+            name,
+            "length {} does not match shape {:?}",
+            data_len,
+            shape
+        )
+    };
     if let Some(elements) = cast_le_bytes(fb_vec.bytes()) {
         let storage =
             ArcSlice::new(storage.clone(), elements).expect("storage does not contain data");
-        ArcTensorView::from_data(shape, storage).into()
+        let view = ArcTensorView::try_from_data(shape, storage).map_err(|_| len_mismatch())?;
+        Ok(view.into())
     } else {
         let data: Vec<T> = fb_vec.iter().collect();
-        ArcTensor::from_data(shape, Arc::new(data)).into()
+        let tensor = ArcTensor::try_from_data(shape, Arc::new(data)).map_err(|_| len_mismatch())?;
+        Ok(tensor.into())
     }
 }
 
@@ -424,10 +516,10 @@ fn constant_data_from_storage_offset<T: LeBytes + FromByteArray>(
     offset: usize,
     name: Option<&str>,
 ) -> Result<ConstantNodeData<T>, LoadError> {
-    let n_elements: usize = shape.iter().product();
-    let byte_len = n_elements * std::mem::size_of::<T>();
-
-    let Some(bytes) = storage.data().get(offset..offset + byte_len) else {
+    let byte_range = checked_element_count(shape)
+        .and_then(|n_elements| n_elements.checked_mul(std::mem::size_of::<T>()))
+        .and_then(|byte_len| Some(offset..offset.checked_add(byte_len)?));
+    let Some(bytes) = byte_range.and_then(|range| storage.data().get(range)) else {
         return Err(load_error!(GraphError, name, "invalid tensor data offset"));
     };
 
